@@ -388,3 +388,92 @@ def assignments_to(f, name):
         and n.target.id == name:
       out.append(n)
   return out
+
+
+# ----------------------------------------------------------------------------
+# Truth-table reasoning over guard atoms (finite: 2^n assignments, n <= 12).
+# This is evaluation of the branch conditions' boolean structure, not path
+# solving: atoms are opaque propositional variables.
+
+import itertools
+
+
+class BoolForm:
+  """Compiles condition expressions to functions over atom assignments.
+
+  `atom_of(expr) -> name | None` maps a sub-expression to a named atom.  Any
+  other non-boolean sub-expression becomes its own free atom (keyed by text),
+  which is the conservative choice."""
+
+  def __init__(self, atom_of):
+    self.atom_of = atom_of
+    self.atoms = []
+
+  def _var(self, name):
+    if name not in self.atoms:
+      self.atoms.append(name)
+    return name
+
+  def compile(self, e):
+    if isinstance(e, str):
+      e = ast.parse(e, mode='eval').body
+    a = self.atom_of(e)
+    if a is not None:
+      if isinstance(a, tuple):      # (name, negated)
+        v = self._var(a[0])
+        return (lambda env, v=v: not env[v]) if a[1] else (lambda env, v=v: env[v])
+      v = self._var(a)
+      return lambda env, v=v: env[v]
+    if isinstance(e, ast.Constant) and isinstance(e.value, bool):
+      return lambda env, c=e.value: c
+    if isinstance(e, ast.UnaryOp) and isinstance(e.op, ast.Not):
+      f = self.compile(e.operand)
+      return lambda env, f=f: not f(env)
+    if isinstance(e, ast.BoolOp):
+      fs = [self.compile(v) for v in e.values]
+      if isinstance(e.op, ast.And):
+        return lambda env, fs=fs: all(f(env) for f in fs)
+      return lambda env, fs=fs: any(f(env) for f in fs)
+    if isinstance(e, ast.Call) and u(e.func) == 'bool' and len(e.args) == 1:
+      return self.compile(e.args[0])
+    if isinstance(e, ast.Compare) and len(e.ops) == 1 and \
+        isinstance(e.ops[0], (ast.NotIn, ast.NotEq, ast.IsNot)):
+      pos = {ast.NotIn: ast.In, ast.NotEq: ast.Eq, ast.IsNot: ast.Is}[type(e.ops[0])]
+      t = ast.Compare(left=e.left, ops=[pos()], comparators=e.comparators)
+      f = self.compile(t)
+      return lambda env, f=f: not f(env)
+    v = self._var('?' + u(e))
+    return lambda env, v=v: env[v]
+
+  def assignments(self):
+    if len(self.atoms) > 14:
+      raise AnalysisError('too many guard atoms for truth-table evaluation: %s' % self.atoms)
+    for vals in itertools.product((False, True), repeat=len(self.atoms)):
+      yield dict(zip(self.atoms, vals))
+
+
+def facts_imply(fs, required, atom_of):
+  """Do the condition facts `fs` (set of ('c', text, pol)) imply every formula
+  in `required` (list of (label, expr text over named atoms))?  Returns list of
+  labels that are NOT implied, with a counter-assignment."""
+  bf = BoolForm(atom_of)
+  premises = []
+  for f in fs:
+    if f[0] != 'c':
+      continue
+    fn = bf.compile(f[1])
+    premises.append((fn, f[2]))
+  named = BoolForm(lambda e: e.id if isinstance(e, ast.Name) else None)
+  reqs = []
+  for label, text in required:
+    fn = named.compile(text)
+    for a in named.atoms:
+      bf._var(a)
+    reqs.append((label, fn))
+  missing = []
+  for label, fn in reqs:
+    for env in bf.assignments():
+      if all(bool(p(env)) == pol for p, pol in premises) and not fn(env):
+        missing.append((label, {k: v for k, v in env.items() if not k.startswith('?')}))
+        break
+  return missing
